@@ -71,4 +71,13 @@ CLAIMED['C08'] = {
     'technique': 'contract-based deductive verification of raises-clauses (symbolic execution with exception outcomes of callees from their contracts) + bounded oracle of failing expressions in every position',
 }
 
+CLAIMED['C03'] = {
+    'category': 'proof',
+    'text': 'validate_ast proved by structural induction over the tree (returns only for whitelisted trees, raises only UnsafeNodeError); dispatch closure, '
+            'calls and assigns clauses for every method of the four evaluator/context classes and the entry points decided syntactically over the real AST '
+            '(closed callee table, no reflective constructs, no write outside the evaluator scope and the two caches); escape corpus under an audit hook is a labelled extra.',
+    'level_note': _BASE_NOTE + ' The closed callee table (SAFE_NAMES / SAFE_ATTRS in props/C03.py) is audited by hand and trusted; ast.iter_child_nodes yields all children (A7).',
+    'technique': 'contract-based deductive verification (structural induction on validate_ast via symbolic execution + z3; calls/assigns/dispatch clauses by a syntactic checker) + bounded escape-corpus oracle under sys.addaudithook',
+}
+
 NOT_APPLICABLE = {}
